@@ -2,7 +2,7 @@
 # Run the thorough tier of every check in sequence; one log per check and a summary line each.
 cd "$(dirname "$0")/.."
 OUT=${SWEEP_OUT:-/tmp}
-for c in ${SWEEP_IDS:-C14 C07 C15 C16 C19 C09 C10 C08 C13 C12 C06 C02 C01 C04 C18 C03 C05 C11}; do
+for c in ${SWEEP_IDS:-C14 C07 C15 C16 C19 C09 C10 C08 C13 C12 C06 C02 C01 C04 C18 C03 C05 C11 C17}; do
   s=$(date +%s)
   timeout ${SWEEP_CAP:-3300} ./check $c --tier ${SWEEP_TIER:-thorough} --no-evidence > $OUT/th_$c.log 2>&1
   rc=$?
